@@ -80,6 +80,8 @@ def e1_configs(tier):
             W(kind="generic", depth=2, W=1),
             W(kind="generic", depth=2, W=2, pipe_capacity=1),
             W(kind="generic", depth=2, W=2, with_pause=True),
+            W(kind="generic", depth=1, W=3, contended_timeouts=True),
+            W(kind="filtered", depth=2, W=2, accepted=family51()[20], contended_timeouts=True),
             W(kind="toast", depth=2, W=2, coordsys="planetary"),
             W(kind="generic", depth=3, W=2, apex=(1, 0, 1)),
         ]
@@ -215,7 +217,7 @@ def e2_cases(tier):
             if a != (0, 0, 0):
                 cases.append(("filtered", 2, f, a, None, tier == "thorough"))
     if tier == "thorough":
-        # depth 3: all filters supported inside one level-1 quadrant
+        # depth 3: all filters supported inside one level-1 quadrant (see also e2_extra_cases)
         q = (1, 1, 0)
         l2 = [tuple(c) for c in quadtree.children(q)]
         l2opts = []
@@ -283,3 +285,24 @@ def replay(payload):
     for sig, (detail, _) in part.violations.items():
         print("REPLAY-FAIL", sig, detail)
     return 1 if part.violations else 0
+
+
+def e2_extra_cases():
+    """Thorough-only additions used by C13: depth-3 filters inside each of the other three level-1
+    quadrants, and every depth-2 filter in the planetary system."""
+    cases = []
+    for q in [(1, 0, 0), (1, 0, 1), (1, 1, 1)]:
+        l2 = [tuple(c) for c in quadtree.children(q)]
+        l2opts = []
+        for t in l2:
+            kids = quadtree.children(t)
+            o = [None]
+            for mask in range(16):
+                o.append([t] + [tuple(kids[i]) for i in range(4) if mask >> i & 1])
+            l2opts.append(o)
+        for choice in itertools.product(*l2opts):
+            cases.append(("filtered", 3, [q] + filter_from(choice), (0, 0, 0), None, False))
+    opts = [l1_options(t) for t in L1]
+    for choice in itertools.product(*opts):
+        cases.append(("filtered", 2, filter_from(choice), (0, 0, 0), "planetary", False))
+    return cases
